@@ -18,6 +18,7 @@
 //!   e<b>      `Effect::new(body b)`         m<b>  `Memo::new(body b)`       o  `Owner::new()`
 //!   E<b>      `Effect::new_sync(body b)`    I<b>  `Effect::new_isomorphic(body b)`
 //!   w<b>.<h>  `Effect::watch(body b, handler body h, false)`   W<b>.<h>  the same with `immediate = true`
+//!   y<b>.<h>  `Effect::watch_sync(body b, handler body h, false)`   Y<b>.<h>  with `immediate = true`
 //!             (handler bodies: only r/c/i/s/u tokens are executed; event H<e> when the handler starts;
 //!             what the handler creates belongs to the effect's current run — F-C08-2, repaired)
 //!   v<b>      `RenderEffect::new(body b)` (handle retained; `dispose e <k>` drops it)
@@ -90,6 +91,7 @@ enum BOp {
     EffectSync(usize),
     EffectIso(usize),
     Watch(usize, usize, bool),
+    WatchSync(usize, usize, bool),
     Render(usize),
     Async(usize),
 }
@@ -123,13 +125,16 @@ fn parse_tok(t: &str, max_body: usize) -> Option<BOp> {
         "I" => BOp::EffectIso(num(rest).filter(|b| (*b as usize) < max_body)? as usize),
         "v" => BOp::Render(num(rest).filter(|b| (*b as usize) < max_body)? as usize),
         "a" => BOp::Async(num(rest).filter(|b| (*b as usize) < max_body)? as usize),
-        "w" | "W" => {
+        "w" | "W" | "y" | "Y" => {
             let (a, b) = rest.split_once('.')?;
-            BOp::Watch(
+            let (a, b) = (
                 num(a).filter(|b| (*b as usize) < max_body)? as usize,
                 num(b).filter(|b| (*b as usize) < max_body)? as usize,
-                k == "W",
-            )
+            );
+            match k {
+                "w" | "W" => BOp::Watch(a, b, k == "W"),
+                _ => BOp::WatchSync(a, b, k == "Y"),
+            }
         }
         "o" if rest.is_empty() => BOp::NewOwner,
         _ => return None,
@@ -827,6 +832,25 @@ fn exec_bop(op: &BOp, sum: &mut i64) {
                 w.sh_new_handle(H::E(eid));
             });
         }
+        BOp::WatchSync(b, hb, imm) => {
+            let eid = w(|w| {
+                w.tags.insert("watch");
+                new_eff_slot(w)
+            });
+            let sentinel = Sentinel(eid);
+            let e = Effect::watch_sync(
+                move || {
+                    let _keep = &sentinel;
+                    run_effect_body(eid, b)
+                },
+                move |_: &i64, _: Option<&i64>, _: Option<()>| run_handler(eid, hb),
+                imm,
+            );
+            w(|w| {
+                w.effs[eid] = AnyEff::Sync(e);
+                w.sh_new_handle(H::E(eid));
+            });
+        }
         BOp::Render(b) => {
             let eid = w(|w| {
                 w.tags.insert("render");
@@ -1365,7 +1389,7 @@ fn gen_body(rng: &mut Rng, k: usize, memo_like: bool) -> String {
                 20 if k > 0 => format!("{}{}", if rng.chance(1, 2) { "E" } else { "I" }, rng.below(k)),
                 21 if k > 0 => format!("v{}", rng.below(k)),
                 22 if k > 0 => format!("a{}", rng.below(k)),
-                23 if k > 0 => format!("{}{}.{}", if rng.chance(1, 2) { "w" } else { "W" }, rng.below(k), rng.below(k)),
+                23 if k > 0 => format!("{}{}.{}", *rng.pick(&["w", "W", "y", "Y"]), rng.below(k), rng.below(k)),
                 _ => format!("c{}", rng.range(1, 40)),
             },
         };
@@ -1452,7 +1476,7 @@ fn gen_random_case(rng: &mut Rng, name: String, big: bool) -> Vec<String> {
                     18 => format!("{}{last}", if rng.chance(1, 2) { "E" } else { "I" }),
                     19..=20 => format!("v{last}"),
                     21..=22 => format!("a{last}"),
-                    23 => format!("{}{last}.{}", if rng.chance(1, 2) { "w" } else { "W" }, rng.below(nb)),
+                    23 => format!("{}{last}.{}", *rng.pick(&["w", "W", "y", "Y"]), rng.below(nb)),
                     5..=6 => format!("c{}", rng.range(1, 40)),
                     7 => format!("n{}", rng.range(1, 40)),
                     8..=9 => format!("i{}", rng.range(1, 90)),
@@ -1554,7 +1578,7 @@ fn gen_matrix() -> Vec<Vec<String>> {
         ("mix", "r0,i7,c5,o,s2"),
         ("nothing", "r0"),
     ];
-    let kinds = ["m", "e", "E", "I", "w", "W", "v", "a", "wc"];
+    let kinds = ["m", "e", "E", "I", "w", "W", "y", "Y", "v", "a", "wc"];
     let mut out = vec![];
     for (cname, cbody) in classes {
         for kind in kinds {
@@ -1574,7 +1598,7 @@ fn gen_matrix() -> Vec<Vec<String>> {
                         l.push("child 0".into());
                         vec!["wc 1 2".into()]
                     }
-                    "w" | "W" => {
+                    "w" | "W" | "y" | "Y" => {
                         l.push(format!("in 0 x {kind}2.1"));
                         vec!["idle".into()]
                     }
